@@ -21,8 +21,9 @@ Decided:
         rule falls back to def-use from the parser's result to the constructor call inside the anchor function.
   R06.2 HTTP/2|3 -> HTTP/1 conversion. Http1Client.send(RequestHeaders): for an h2/h3 request the message whose head is sent has
         http_version HTTP/1.1, an empty authority, a Host header taken from the authority iff there was no Host header and the
-        authority is non-empty, several Cookie headers joined with "; ", every other field and header unchanged - and the flow's
-        own request (event.request) is exactly as before; an HTTP/1 request is sent unmodified.
+        authority is non-empty, several Cookie headers joined with "; ", every other field and header unchanged (a Content-Length /
+        Transfer-Encoding the request conversion ADDS to announce the body is left to R06.5) - and the flow's own request
+        (event.request) is exactly as before; an HTTP/1 request is sent unmodified.
         Http1Server.send(ResponseHeaders): same with HTTP/1.1 (a made-up reason phrase is allowed, not demanded).
   R06.3 inbound validation / HTTP/1 -> HTTP/2: Http2Connection.__init__ (interpreted with the option on and off; path
         enumeration as fallback) takes h2_conf.validate_inbound_headers from context.options.validate_inbound_headers before
@@ -33,8 +34,25 @@ Decided:
   R06.4 one HTTP/2|3 message -> one HTTP/1 head: Http1Client.send(RequestHeaders) / Http1Server.send(ResponseHeaders)
         yield exactly one SendData whose bytes are assemble_request_head / assemble_response_head of the (converted)
         message (Log commands are transparent), in every scenario.
+  R06.5 one HTTP/2|3 message -> exactly one HTTP/1 message on the wire (BOUNDED interpretation, not a proof for all inputs):
+        Http1Client.send is interpreted over RequestHeaders, RequestData*, RequestEndOfMessage for every cell of
+        {HTTP/2.0, HTTP/3, HTTP/1.1} x framing header {none, content-length, transfer-encoding: chunked} x end_stream x
+        {buffered: raw_content = the body bytes (b"" included), one RequestData | streamed: raw_content None, 0-3 RequestData, one
+        of them empty} x bodies of 0 / 5 / 39 / 23 bytes; http1.assemble_request_head is interpreted too, so SendData carries real
+        bytes.  Those bytes are read by a small reference HTTP/1 request reader written from RFC 9112 (request line, field lines,
+        Content-Length xor chunked coding, a request with neither has no body): they must be one complete request whose body is the
+        concatenation of the RequestData payloads, with nothing left over (left-over bytes are what the server parses as the next
+        request).  Failures are classed by what the reader saw, never by the code's shape:
+          * converted request, no framing header, body not announced, raw body follows: buffered -> F-C06 (repaired in 1e0ce2d10: must
+            hold), streamed -> the ONE constant finding F-C06s (cannot be repaired without editing tests that pin the streamed head);
+          * an empty RequestData under chunked coding is written as the last-chunk `0 CRLF CRLF` and ends the message early (found by
+            this rule, findings/F-C01c, repaired in f1f995324: must hold);
+          * anything else -> a violation named after the cell.
+        The response direction (Http1Server.send: a converted response without Content-Length is close-delimited, which is valid
+        HTTP/1 framing for responses) is not covered by R06.5.
 NOT decided: what hyper-h2 / aioquic accept as header blocks (CR/LF/NUL filtering is library code controlled by the
-option checked in R06.3), body and trailer bytes (relayed by C07's rules), HTTP/1 framing decisions (C01).
+option checked in R06.3), trailers, bodies outside R06.5's cells (a Content-Length that disagrees with the data, CONNECT / upgrades,
+HTTP/1 requests whose framing header an addon removed; byte-exact relay is C07's subject), HTTP/1 framing decisions on receipt (C01).
 """
 
 from __future__ import annotations
@@ -70,11 +88,15 @@ PROP = "C06"
 REG = {
     "strength": "partial",
     "technique": "abstract interpretation of the converters' ASTs (pyint) over a finite message domain with trusted models of http.Headers / "
-    "hyper-h2's normaliser; the outputs are compared with the inputs (field tables); dataflow from parser result to constructor at the call sites; option dataflow",
+    "hyper-h2's normaliser; the outputs are compared with the inputs (field tables); dataflow from parser result to constructor at the call sites; option dataflow; "
+    "bounded interpretation of Http1Client.send over request event sequences, the written bytes judged by an independent RFC 9112 request reader",
     "claim": "h2/h3 pseudo-headers map one-to-one to request.data fields in both directions (no duplicates, no leftovers, same-named constructor "
     "parameters at both call sites); the HTTP/1 down-conversion leaves the flow's message untouched, sets HTTP/1.1, inserts Host from authority only when "
-    "missing, joins Cookie headers with '; ' and emits exactly one head; inbound header validation follows the option; HTTP/1 header blocks are normalised for HTTP/2.",
-    "note": "hyper-h2 / aioquic header validation, http1.assemble_*, Message.copy() and the model of http.Headers are trusted.",
+    "missing, joins Cookie headers with '; ' and emits exactly one head; inbound header validation follows the option; HTTP/1 header blocks are normalised for HTTP/2; "
+    "on a bounded domain (76 cells: version x framing header x end_stream x buffered/streamed x RequestData sequences) the bytes Http1Client.send writes for one request "
+    "are exactly one correctly framed HTTP/1 message (known exception: F-C06s, a streamed body without content-length).",
+    "note": "hyper-h2 / aioquic header validation, http1.assemble_* (R06.2/R06.4; interpreted in R06.5), Message.copy() and the model of http.Headers are trusted; R06.5 is a bounded "
+    "interpretation judged by this module's own RFC 9112 reference reader, not a proof over all bodies / chunkings; the response direction's framing is not decided.",
 }
 
 H1 = "mitmproxy/proxy/layers/http/_http1.py"
@@ -920,6 +942,9 @@ def _call_site(ctx, rel, qual, parser, roles, ctor, want, version):
 # R06.2 / R06.4  down-conversion in _http1.py
 
 
+_FRAMING_FIELDS = (b"content-length", b"transfer-encoding")
+
+
 def _split_fields(fields):
     host = [v for n, v in fields if n.lower() == b"host"]
     cookie = [v for n, v in fields if n.lower() == b"cookie"]
@@ -1008,6 +1033,10 @@ def _downconvert(ctx, cls, msg, hdr_event, assemble):
         else:
             ghost, gcookie, gother = _split_fields(got_fields)
             host, cookie, other_f = _split_fields(fields)
+            if is_req:
+                # a framing header the conversion ADDS (HTTP/2 and HTTP/3 delimit bodies themselves, HTTP/1 needs Content-Length or
+                # chunked coding) is no change of the message's end-to-end fields; whether it frames the body correctly is R06.5's subject
+                gother = [f for f in gother if f[0].lower() not in _FRAMING_FIELDS or any(n.lower() == f[0].lower() for n, _ in fields)]
             if gother != other_f:
                 probs.append(f"header fields other than Host / Cookie must be kept complete and in order: expected {_fmt(other_f)}, saw {_fmt(gother)}")
             if is_req:
@@ -1025,6 +1054,212 @@ def _downconvert(ctx, cls, msg, hdr_event, assemble):
         ctx.ok("R06.2", f"{cls}.send({hdr_event}): {n_rows} scenario rows: h2/h3 messages are converted on a copy exactly as specified, HTTP/1 messages pass unmodified")
     if "R06.4" not in failed:
         ctx.ok("R06.4", f"{cls}.send({hdr_event}): exactly one SendData(http1.{assemble}(...)) in {n_rows} scenario rows")
+
+
+# ---------------------------------------------------------------------------------------------------
+# R06.5  one request -> exactly one correctly framed HTTP/1 message on the wire (bounded interpretation of Http1Client.send)
+
+_TOKEN = _re.compile(rb"[!#$%&'*+\-.^_`|~0-9A-Za-z]+\Z")
+_CTL = (b"\r", b"\n", b"\x00")
+
+
+class _Framing(Exception):
+    """Why a byte string is not one complete, unambiguous HTTP/1 request (reference reader's verdict)."""
+
+
+def _ref_field_line(line):
+    """RFC 9112 section 5: field-line = field-name ":" OWS field-value OWS (no obs-fold, no bare CR / LF / NUL)."""
+    name, sep, value = line.partition(b":")
+    if not sep or not _TOKEN.match(name) or any(c in value for c in _CTL):
+        raise _Framing(f"malformed field line {line[:40]!r}")
+    return name.lower(), value.strip(b" \t")
+
+
+def _ref_dechunk(data):
+    """RFC 9112 section 7.1: chunked-body = *chunk last-chunk trailer-section CRLF; -> (decoded body, bytes after the message)."""
+    body, pos = bytearray(), 0
+    while True:
+        eol = data.find(b"\r\n", pos)
+        if eol < 0:
+            raise _Framing("chunked coding: the chunk-size line is incomplete (the server keeps waiting, bytes of a later request would be taken for it)")
+        size_s = data[pos:eol].partition(b";")[0].strip(b" \t")
+        if not _re.fullmatch(rb"[0-9A-Fa-f]+", size_s):
+            raise _Framing(f"chunked coding: {data[pos:eol][:24]!r} is no chunk-size line")
+        size, pos = int(size_s, 16), eol + 2
+        if size == 0:
+            while True:  # trailer-section, then the empty line
+                eol = data.find(b"\r\n", pos)
+                if eol < 0:
+                    raise _Framing("chunked coding: the last chunk is not terminated by an empty line")
+                if eol == pos:
+                    return bytes(body), data[pos + 2:]
+                _ref_field_line(data[pos:eol])
+                pos = eol + 2
+        if len(data) < pos + size + 2:
+            raise _Framing(f"chunked coding: a chunk of {size} bytes is announced but only {max(0, len(data) - pos)} bytes follow")
+        body += data[pos:pos + size]
+        if data[pos + size:pos + size + 2] != b"\r\n":
+            raise _Framing("chunked coding: chunk data is not followed by CRLF")
+        pos += size + 2
+
+
+def _ref_read_request(wire):
+    """Reference reader for the first HTTP/1 request in ``wire``, written from RFC 9112 (2.1 message format, 3 request line,
+    5 field syntax, 6.1-6.3 message body length of a REQUEST, 7.1 chunked coding) - independent of mitmproxy's own reader.
+    -> (fields, 'chunked' | 'content-length' | 'none', body, bytes after the message); _Framing when there is no complete,
+    unambiguously delimited request."""
+    end = wire.find(b"\r\n\r\n")
+    if end < 0:
+        raise _Framing("no complete message head (no empty line)")
+    lines, rest = wire[:end].split(b"\r\n"), wire[end + 4:]
+    parts = lines[0].split(b" ")
+    if len(parts) != 3 or not _TOKEN.match(parts[0]) or not parts[1] or parts[2] not in (b"HTTP/1.1", b"HTTP/1.0"):
+        raise _Framing(f"{lines[0][:60]!r} is no HTTP/1 request line")
+    fields = [_ref_field_line(ln) for ln in lines[1:]]
+    te = [v for n, v in fields if n == b"transfer-encoding"]
+    cl = [v for n, v in fields if n == b"content-length"]
+    if te:
+        if cl:
+            raise _Framing("both Transfer-Encoding and Content-Length are sent (RFC 9112 6.1/6.3: the two hops may disagree about the length - request smuggling)")
+        codings = [c.strip(b" \t").lower() for v in te for c in v.split(b",")]
+        if codings[-1] != b"chunked" or codings.count(b"chunked") != 1:
+            raise _Framing("the final transfer coding of a request is not chunked: its length cannot be determined (RFC 9112 6.3 rule 4)")
+        body, rest = _ref_dechunk(rest)
+        return fields, "chunked", body, rest
+    if cl:
+        values = {x.strip(b" \t") for v in cl for x in v.split(b",")}
+        if len(values) != 1 or not _re.fullmatch(rb"[0-9]+", next(iter(values))):
+            raise _Framing(f"invalid / conflicting Content-Length {sorted(values)!r}")
+        n = int(next(iter(values)))
+        if len(rest) < n:
+            raise _Framing(f"Content-Length announces {n} body bytes but only {len(rest)} are written (the server takes the start of the next request for the rest)")
+        return fields, "content-length", rest[:n], rest[n:]
+    return fields, "none", b"", rest  # RFC 9112 6.3 rule 6: a request without either header has no body
+
+
+class _WireSem(_Sem):
+    """_Sem, but http1.assemble_request_head is interpreted from its source too (bytes(headers) comes from the Headers model),
+    so that what Http1Client.send hands to SendData are the real bytes."""
+
+    def __init__(self, model, lib=None):
+        super().__init__(model, lib)
+        for rel in (H1,) + HTTP1_PKG:
+            self.overrides.pop((rel, "assemble_request_head"), None)
+
+
+SMUGGLE = b"GET /admin HTTP/1.1\r\nHost: internal\r\n\r\n"  # 39 bytes: chunk-size 27 in hex
+F_C06S = "streamed HTTP/2 or HTTP/3 request body without content-length is written to an HTTP/1 server without framing"
+F_C06 = "buffered HTTP/2 or HTTP/3 request body without content-length is written to an HTTP/1 server without framing"
+F_C06E = "an empty RequestData under chunked transfer coding is written as the last-chunk and ends the HTTP/1 message early"
+R065_MAX_CELL_FINDINGS = 4
+
+
+def _wire_cells():
+    """(version, framing header, end_stream, buffered?, RequestData payloads) - the bounded domain of R06.5."""
+    for version in MUX_VERSIONS + H1_VERSIONS[:1]:
+        for framing in ("none", "content-length", "chunked"):
+            for buffered in (True, False):
+                yield version, framing, True, buffered, ()
+            if version in H1_VERSIONS and framing == "none":
+                # an HTTP/1 request without Content-Length / Transfer-Encoding HAS no body (RFC 9112 6.3): Http1Server announces it with
+                # end_stream=True and never delivers RequestData; the only other feasible cell is "no data at all"
+                yield version, framing, False, True, ()
+                yield version, framing, False, False, ()
+                continue
+            for body in (b"", b"hello", SMUGGLE):
+                yield version, framing, False, True, ((body,) if body else ())  # HttpStream sends the buffered body as one RequestData
+            for chunks in ((), (b"hello",), (SMUGGLE,), (b"ab", b"", b"cde" * 7)):
+                yield version, framing, False, False, chunks
+
+
+def _wire_of(ctx, version, framing, end_stream, buffered, chunks):
+    """Interpret Http1Client.send over RequestHeaders, RequestData*, RequestEndOfMessage; -> bytes written to the server connection."""
+    body = b"".join(chunks)
+    mux = version in MUX_VERSIONS
+    fields = [(b"X-Custom", b"V1")]
+    if framing == "content-length":
+        fields.append((b"content-length" if mux else b"Content-Length", b"%d" % len(body)))
+    elif framing == "chunked":
+        fields.append((b"transfer-encoding" if mux else b"Transfer-Encoding", b"chunked"))
+    world = []
+    it = _WireSem(ctx.model)
+    req = _request(world, version, AUTHORITY if mux else b"", ([] if mux else [(b"Host", HOSTV)]) + fields)
+    object.__setattr__(req.data, "content", body if buffered else None)
+    me = Rec("Http1Client", _bases=("Http1Connection", "HttpConnection", "Layer"), _impl=(H1, "Http1Client"), conn=Rec("Server", state=3), stream_id=None, request=None, response=None,
+             request_done=False, response_done=False, context=_context(), debug=None)
+    events = [Rec("RequestHeaders", _bases=("HttpEvent", "Event"), stream_id=1, end_stream=end_stream, replay_flow=None, request=req)]
+    events += [Rec("RequestData", _bases=("HttpEvent", "Event"), stream_id=1, data=c) for c in chunks]
+    events.append(Rec("RequestEndOfMessage", _bases=("HttpEvent", "Event"), stream_id=1))
+    wire = bytearray()
+    for ev in events:
+        res = it.method(me, "send", ev)  # Raised propagates to the caller
+        ctx.require(isinstance(res, _Done), "Http1Client.send is not a command generator any more")
+        for c in res.yields:
+            if isinstance(c, Rec) and c.isa("SendData"):
+                data = getattr(c, "data", None)
+                if getattr(c, "connection", None) is not me.conn:
+                    raise _Framing("bytes of the request are sent to another connection than this client's server")
+                if not isinstance(data, (bytes, bytearray)):
+                    raise AnalysisError(f"Http1Client.send: SendData carries {type(data).__name__}, not bytes, in the modelled set-up")
+                wire += data
+    return bytes(wire)
+
+
+def _one_message(ctx):
+    fn = ctx.func(H1, "Http1Client.send")
+    for rel in HTTP1_PKG[1:]:
+        if ctx.model.has(rel, "assemble_request_head"):
+            ctx.func(rel, "assemble_request_head")
+    w = (H1, "Http1Client.send", fn)
+    n = held = 0
+    known, repaired, early_end, other = [], [], [], []
+    for version, framing, end_stream, buffered, chunks in _wire_cells():
+        n += 1
+        ctx.cells += 1
+        body = b"".join(chunks)
+        mux = version in MUX_VERSIONS
+        cell = (f"{version.decode()} request, {'no framing' if framing == 'none' else framing} header, end_stream={end_stream}, {'buffered' if buffered else 'streamed'} body, "
+                f"RequestData x{len(chunks)} ({len(body)} bytes)")
+        why = None
+        unframed = ended_by_empty_chunk = False
+        try:
+            wire = _wire_of(ctx, version, framing, end_stream, buffered, chunks)
+            fields, kind, got, rest = _ref_read_request(wire)
+            if rest:
+                unframed = kind == "none" and rest == body
+                ended_by_empty_chunk = kind == "chunked" and framing == "chunked" and b"" in chunks and got == b"".join(chunks[:chunks.index(b"")])
+                why = (f"the head announces {'no body' if kind == 'none' else 'a ' + kind + ' body of ' + str(len(got)) + ' bytes'}, yet {len(rest)} more bytes follow the message: "
+                       f"an HTTP/1 server parses {rest[:24]!r}... as the next request")
+            elif got != body:
+                why = f"the body the server reads ({len(got)} bytes, {got[:16]!r}...) is not the body that was received ({len(body)} bytes)"
+        except Raised as r:
+            why = f"send() raises {r.name}: no complete HTTP/1 message is written"
+        except _Framing as e:
+            why = str(e)
+        if why is None:
+            held += 1
+            if len(chunks) > 1 or (mux and framing == "none" and buffered and body == b"hello"):
+                ctx.sample({"rule": "R06.5", "cell": cell, "wire": wire.decode("latin-1")})
+            continue
+        if unframed and mux and framing == "none" and not end_stream:
+            (repaired if buffered else known).append((cell, why))
+        elif ended_by_empty_chunk:
+            early_end.append((cell, why))
+        else:
+            other.append((cell, why))
+    if known:
+        ctx.fail("R06.5", w, F_C06S, f"{len(known)} of {n} cells, e.g. [{known[0][0]}]: {known[0][1]} (the converted head carries neither Content-Length nor Transfer-Encoding: chunked "
+                 "although RequestHeaders.end_stream is False; cannot be repaired without editing tests that pin the head bytes of a streamed request)")
+    if repaired:
+        ctx.fail("R06.5", w, F_C06, f"{len(repaired)} of {n} cells, e.g. [{repaired[0][0]}]: {repaired[0][1]} (the length of the buffered body, request.raw_content, must be announced in the converted head)")
+    if early_end:
+        ctx.fail("R06.5", w, F_C06E, f"{len(early_end)} of {n} cells, e.g. [{early_end[0][0]}]: {early_end[0][1]} (the chunk-encoded form of empty data is `0 CRLF CRLF`, which is never falsy: "
+                 "empty data must write nothing; reachable with an empty HTTP/2 DATA frame or a stream callable returning b\"\")")
+    for cell, why in other[:R065_MAX_CELL_FINDINGS]:
+        ctx.fail("R06.5", w, cell, why + (f" (+{len(other) - R065_MAX_CELL_FINDINGS} more cells)" if len(other) > R065_MAX_CELL_FINDINGS else ""))
+    if held:
+        ctx.ok("R06.5", f"Http1Client.send: {held}/{n} cells (h2 / h3 / HTTP/1.1 x no | content-length | chunked header x end_stream x buffered | streamed x RequestData sequences): the bytes written "
+               "form exactly one HTTP/1 request for an independent RFC 9112 reader, body as received, nothing left over")
 
 
 # ---------------------------------------------------------------------------------------------------
@@ -1189,20 +1424,27 @@ def check(ctx):
     ctx.rule("R06.2", "h2/h3 -> HTTP/1 conversion: copy, HTTP/1.1, Host from authority iff missing, authority cleared, Cookie joined with '; '; responses: copy + HTTP/1.1")
     ctx.rule("R06.3", "inbound header validation follows the option; HTTP/1 blocks are normalised for HTTP/2; Host -> :authority only when authority is empty")
     ctx.rule("R06.4", "exactly one HTTP/1 head (one SendData of assemble_*_head) per RequestHeaders / ResponseHeaders")
+    ctx.rule("R06.5", "the bytes Http1Client.send writes for one request (head, data, end of message) are exactly one HTTP/1 message for an RFC 9112 reader: "
+             "a body is announced by Content-Length or chunked coding, nothing is left over for the server to parse as a second request (bounded interpretation)")
     ctx.trust("hyper-h2 / aioquic header validation, http1.assemble_request_head / assemble_response_head, h2.utilities.normalize_outbound_headers (modelled: lower-cases names, drops connection-specific fields)")
     ctx.trust("model of mitmproxy.http.Headers (case-insensitive multi-dict over (bytes, bytes) fields) and Message.copy() (independent deep copy); http.Request / http.Response properties are interpreted from their source")
     ctx.bounds.append("converters interpreted on a finite message domain: versions HTTP/1.0 1.1 2.0 3 x authority set/empty x Host present/absent x one/several Cookie headers x normalize_outbound_headers")
+    ctx.bounds.append("R06.5 is a bounded interpretation: versions HTTP/2.0 3 1.1 x framing header none | content-length | transfer-encoding: chunked x end_stream x buffered (raw_content bytes, one RequestData) | "
+                      "streamed (raw_content None, 0-3 RequestData incl. an empty one) x bodies of 0 / 5 / 40 / 26 bytes; an HTTP/1 request without framing header is only modelled without body; "
+                      "no trailers, no Content-Length that disagrees with the data, no CONNECT / upgrade")
+    ctx.trust("R06.5: the reference HTTP/1 request reader in this module (written from RFC 9112 sections 2-7) defines what an HTTP/1 server sees; http1.assemble_request_head is interpreted from its source")
     _format_request(ctx)
     _format_response(ctx)
     _parse_side(ctx)
     _downconvert(ctx, "Http1Client", "request", "RequestHeaders", "assemble_request_head")
     _downconvert(ctx, "Http1Server", "response", "ResponseHeaders", "assemble_response_head")
     _validation_option(ctx)
-    if not ctx.findings:
-        ctx.expect_instances("R06.1", 28)
-        ctx.expect_instances("R06.2", 2)
-        ctx.expect_instances("R06.3", 4)
-        ctx.expect_instances("R06.4", 2)
+    _one_message(ctx)
+    # fail closed per rule: a rule without a finding (the known finding F-C06s apart) must have matched what was confirmed by hand
+    failed = {f.rule for f in ctx.findings if f.construct != F_C06S}
+    for rule, count in (("R06.1", 28), ("R06.2", 2), ("R06.3", 4), ("R06.4", 2), ("R06.5", 1)):
+        if rule not in failed:
+            ctx.expect_instances(rule, count)
 
 
 MUTANTS = [
@@ -1246,6 +1488,21 @@ MUTANTS = [
            "    if event.response.is_http2:\n        if context.options.normalize_outbound_headers:\n            yield from normalize_h2_headers(headers)\n    else:\n        headers = normalize_h1_headers(headers, False)\n", "R06.3"),
     Mutant("host-overrides-authority", H2, "        if not event.request.authority and \"host\" in headers:", "        if \"host\" in headers:", "R06.3"),
     Mutant("host-popped-from-flow", H2, "            headers = headers.copy()\n            pseudo_headers.append", "            pseudo_headers.append", "R06.3"),
+    # R06.5
+    Mutant("buffered-body-length-not-announced", H1, "                if (\n                    not event.end_stream\n                    and request.raw_content is not None\n                    and \"content-length\" not in request.headers\n"
+           "                    and \"transfer-encoding\" not in request.headers\n                ):\n                    # HTTP/2 and HTTP/3 delimit the body themselves, HTTP/1 needs to announce its length.\n"
+           "                    # Without it the server would take the body bytes for the next request.\n                    request.headers[\"content-length\"] = str(len(request.raw_content))\n", "", "R06.5"),  # F-C06: the fix 1e0ce2d10 reverted
+    Mutant("buffered-body-length-off-by-one", H1, "request.headers[\"content-length\"] = str(len(request.raw_content))", "request.headers[\"content-length\"] = str(len(request.raw_content) + 1)", "R06.5"),
+    Mutant("content-length-added-next-to-chunked", H1, "                    and \"content-length\" not in request.headers\n                    and \"transfer-encoding\" not in request.headers\n", "                    and \"content-length\" not in request.headers\n", "R06.5"),
+    Mutant("request-chunk-without-chunk-header", H1, "            assert self.request\n            # an empty chunk would be the last-chunk and end the body early.\n            if (\n                event.data\n                and \"chunked\"\n                in self.request.headers.get(\"transfer-encoding\", \"\").lower()\n            ):\n                raw = b\"%x\\r\\n%s\\r\\n\" % (len(event.data), event.data)\n",
+           "            assert self.request\n            # an empty chunk would be the last-chunk and end the body early.\n            if (\n                event.data\n                and \"chunked\"\n                in self.request.headers.get(\"transfer-encoding\", \"\").lower()\n            ):\n                raw = b\"%s\\r\\n\" % event.data\n", "R06.5"),
+    Mutant("request-chunk-size-decimal", H1, "            assert self.request\n            # an empty chunk would be the last-chunk and end the body early.\n            if (\n                event.data\n                and \"chunked\"\n                in self.request.headers.get(\"transfer-encoding\", \"\").lower()\n            ):\n                raw = b\"%x\\r\\n%s\\r\\n\" % (len(event.data), event.data)\n",
+           "            assert self.request\n            # an empty chunk would be the last-chunk and end the body early.\n            if (\n                event.data\n                and \"chunked\"\n                in self.request.headers.get(\"transfer-encoding\", \"\").lower()\n            ):\n                raw = b\"%d\\r\\n%s\\r\\n\" % (len(event.data), event.data)\n", "R06.5"),
+    Mutant("request-empty-data-written-as-last-chunk", H1, "            if (\n                event.data\n                and \"chunked\"\n                in self.request.headers.get(\"transfer-encoding\", \"\").lower()\n            ):\n",
+           "            if \"chunked\" in self.request.headers.get(\"transfer-encoding\", \"\").lower():\n", "R06.5"),  # F-C01c: the fix f1f995324 reverted (request direction)
+    Mutant("request-last-chunk-dropped", H1, "            assert self.request\n            if \"chunked\" in self.request.headers.get(\"transfer-encoding\", \"\").lower():\n                yield commands.SendData(self.conn, b\"0\\r\\n\\r\\n\")\n            elif",
+           "            assert self.request\n            if False:\n                pass\n            elif", "R06.5"),
+    Mutant("length-taken-of-a-streamed-body", H1, "                    and request.raw_content is not None\n", "", "R06.5"),
     # R06.4
     Mutant("two-heads", H1, "            raw = http1.assemble_request_head(request)\n            yield commands.SendData(self.conn, raw)\n", "            raw = http1.assemble_request_head(request)\n            yield commands.SendData(self.conn, raw)\n            if request is not event.request:\n                yield commands.SendData(self.conn, raw)\n", "R06.4"),
     Mutant("head-of-unconverted-request", H1, "            raw = http1.assemble_request_head(request)\n", "            raw = http1.assemble_request_head(event.request)\n", "R06.4"),
